@@ -323,9 +323,7 @@ func classify(text string) (class string, rid string, extras bool) {
 		return cInvalid, "", extras
 	}
 	v := m["data"]
-	if string(v) == "null" {
-		return cUnspec, "", extras
-	}
+	// (null is a JSON value like any other: {"data":null} wraps the primitive null)
 	if v[0] == '{' || v[0] == '[' {
 		return cData, "", extras
 	}
